@@ -109,8 +109,17 @@ class Discard(Exception):
 
 
 def _execute(mod: Any, plan: dict[str, Any]) -> dict[str, Any]:
+    if plan.get("_debug_logging") and mod.PROP != "C20":
+        # process state set by the application before it uses the library: debug logging on
+        from . import world
+
+        world.enable_debug_logging()
     try:
-        return mod.execute(plan)
+        res = mod.execute(plan)
+        if plan.get("_debug_logging"):
+            res.setdefault("knobs", {})
+            res["knobs"] = {**(res.get("knobs") or {}), "debug_logging_enabled": 1}
+        return res
     except Discard as d:
         return {"violations": [], "digest": "discarded:" + str(d), "evals": 0,
                 "discarded": {"run:" + str(d): 1}, "discarded_run": True}
@@ -118,6 +127,8 @@ def _execute(mod: Any, plan: dict[str, Any]) -> dict[str, Any]:
 
 def _run_seed(mod: Any, seed: int, tier: str, index: int) -> dict[str, Any]:
     plan = mod.make_plan(seed, tier, index)
+    if index % 7 == 3:
+        plan["_debug_logging"] = True
     res = _execute(mod, plan)
     res["plan_digest"] = rng.digest(plan)
     if res.get("violations"):
